@@ -109,6 +109,31 @@ def check(cons, timeout=None, want_model=False):
     r = str(s.check())
     C.stats['queries'] += 1
     C.stats['solver_s'] += time.time() - t0
+    if r == 'unknown' and to >= 10000:
+        # nlsat run times are heavy-tailed in the variable order: before giving up on an obligation, restart twice
+        # with the assertions in another order and another seed (half the time each, within the configuration budget)
+        cons = list(cons)
+        for k, order in enumerate((cons[::-1], cons[len(cons) // 2:] + cons[:len(cons) // 2])):
+            to2 = to // 2
+            if C.deadline is not None:
+                to2 = min(to2, int((C.deadline - time.time()) * 1000))
+            if to2 <= 500:
+                break
+            s = z3.Solver()
+            s.set('timeout', to2)
+            try:
+                s.set('random_seed', 17 + 84 * k)
+            except Exception:
+                pass
+            for c in order:
+                s.add(c)
+            t0 = time.time()
+            r = str(s.check())
+            C.stats['queries'] += 1
+            C.stats['retries'] = C.stats.get('retries', 0) + 1
+            C.stats['solver_s'] += time.time() - t0
+            if r != 'unknown':
+                break
     C.stats[r] = C.stats.get(r, 0) + 1
     if want_model:
         return r, (s.model() if r == 'sat' else None)
@@ -650,7 +675,21 @@ class R:
     def __int__(self):
         if self.c is not None and self.tag is None:
             return int(self.c)
-        raise Unsupported('concretisation (int) of a symbolic real')
+        if self.tag or self.closed:
+            raise Unsupported('concretisation (int) of a symbolic real')
+        # truncation toward zero of a symbolic real: fork over the integer classes |k| <= 64 (infeasible classes are
+        # pruned by the branch feasibility queries); anything beyond is Unsupported
+        guess = int(self.sh) if self.sh is not None and self.sh == self.sh and abs(self.sh) < 64 else 0
+        for k in sorted(range(-64, 65), key=lambda k: (abs(k - guess), k)):
+            if k > 0:
+                cond = (self >= k) & (self < k + 1)
+            elif k < 0:
+                cond = (self > k - 1) & (self <= k)
+            else:
+                cond = (self > -1) & (self < 1)
+            if bool(cond):
+                return k
+        raise Unsupported('concretisation (int) of a symbolic real outside [-64, 64]')
 
     __index__ = None
 
@@ -790,7 +829,32 @@ def ite(c, a, b):
     sh = None
     if c.sh is not None:
         sh = a.sh if c.sh else b.sh
+    if _simple_bound(c.t):
+        # a bare variable compared with a numeral: the recorded range assumptions of that variable often decide it
+        # (e.g. np.maximum(w, 0) for an optimiser weight assumed to lie in [0, 1]) and spare the solver an ite
+        try:
+            rel = relevant([c.t], with_defs=False)
+            if check(rel + [c.t], timeout=500) == 'unsat':
+                return b
+            if check(rel + [z3.Not(c.t)], timeout=500) == 'unsat':
+                return a
+        except Exception:
+            pass
     return R(n=z3.If(c.t, a.t, b.t), sh=sh)
+
+
+def _simple_bound(t):
+    try:
+        t = z3.simplify(t)
+        if z3.is_not(t):
+            t = t.arg(0)
+        if t.num_args() != 2 or t.decl().kind() not in (z3.Z3_OP_LT, z3.Z3_OP_LE, z3.Z3_OP_GT, z3.Z3_OP_GE):
+            return False
+        x, y = t.arg(0), t.arg(1)
+        isvar = lambda e: z3.is_const(e) and e.decl().kind() == z3.Z3_OP_UNINTERPRETED
+        return (isvar(x) and z3.is_rational_value(y)) or (isvar(y) and z3.is_rational_value(x))
+    except Exception:
+        return False
 
 
 # --------------------------------------------------------------------------- atoms
